@@ -11,7 +11,7 @@ STEP_LIMIT = 1_500_000
 BOUNDS = {
     'quick': 'rule t($X) :- BODY followed by the fact t(z) (a later clause that a cut must exclude); BODY = every conjunction / disjunction / mixed shape of up to 3 goals over '
              '{p($X), q($X), r($X, $Y), $X = b, `!`, fail, q($Y)} containing at least one `!`; queried directly (t($X), t(b)) and through callers w($X, $Y) :- p($Y), t($X) '
-             '(a sibling goal before the call must keep backtracking) and v($X) :- t($X) ; $X = zz (the caller\'s alternative must survive); plus 400 four-goal bodies in which a disjunction stands next to a cut and a goal after the cut can fail; up to 8 answers compared',
+             '(a sibling goal before the call must keep backtracking) and v($X) :- t($X) ; $X = zz (the caller\'s alternative must survive); plus 400 four-goal bodies in which a disjunction stands next to a cut and a goal after the cut can fail, and 500 five-goal bodies with a test between a 2- or 3-alternative disjunction and the cut; up to 8 answers compared',
     'thorough': 'adds n($X), $X < 3, member, a second cut-bearing clause and bodies of 4 goals in the flat conjunction shape',
 }
 OUTSIDE = 'cut inside not(...) and time(...); a cut inside a disjunction: three readings are accepted (DESIGN C02) and the evidence counts which one the engine follows'
@@ -49,6 +49,15 @@ def cases(tier, seed):
             for b in (AND(OR(g, h), CUT, k), AND(OR(AND(g, CUT), h), k), AND(g, OR(h, CUT), k), AND(OR(g, AND(h, CUT)), k), AND(CUT, OR(g, h), k)):
                 cl = [(C('t', X), b), (C('t', A('z')), None)]
                 out.append({'id': '%s [direct]|%d' % (P.ctext(cl[0]), len(out)), 'fam': 'direct', 'clauses': PC.jsonable(tuple(cl)), 'query': PC.jsonable(C('t', X))})
+    # ... and with a test between the disjunction and the cut, so that the cut runs when the disjunction is already past its
+    # first alternative: 5 goals, and a 3-alternative disjunction
+    tests = [gb('equal', X, A('b')), gb('equal', X, I(5)), gb('greater_than', X, I(1)), gc('q', X)]
+    for g, h in itertools.product(core[:4], repeat=2):
+        for t in tests:
+            for k in core[4:] + [gb('equal', X, I(1))]:
+                for b in (AND(OR(g, h), t, CUT, k), AND(OR(g, h, gc('n', X)), t, CUT, k)):
+                    cl = [(C('t', X), b), (C('t', A('z')), None)]
+                    out.append({'id': '%s [direct]|%d' % (P.ctext(cl[0]), len(out)), 'fam': 'direct', 'clauses': PC.jsonable(tuple(cl)), 'query': PC.jsonable(C('t', X))})
     if tier != 'quick':
         for gs in itertools.product(MENU, repeat=4):
             b = AND(*gs)
